@@ -835,7 +835,6 @@ const ENV_VARS: [(&str, [&str; 2]); 7] = [
     // "1": the child installs a TRACE-level tracing subscriber (output discarded) before it runs the harness
     ("VERIF_TRACE", ["0", "1"]),
 ];
-const ENV_CPUS: [&str; 2] = ["0-15", "3-05"];
 const ENV_DIRS: [&str; 2] = ["/", "/tmp"];
 
 #[derive(Clone, Debug, PartialEq, Eq)]
@@ -906,12 +905,14 @@ fn run_child(shim: &PathBuf, args: &[String], env: &Env) -> ChildOut {
     // the two clock environments also differ in everything else a process inherits: logging / thread-pool / time-zone
     // variables (values of equal length, so the stack layout stays the same), the working directory and the CPUs it
     // may run on (std::thread::available_parallelism follows the affinity mask)
-    let mut cmd = if std::path::Path::new("/usr/bin/taskset").exists() {
+    // environment 1 runs on at most 3 CPUs (if taskset and >= 4 CPUs are there), environment 0 on all of them
+    let ncpu = std::thread::available_parallelism().map(|n| n.get()).unwrap_or(1);
+    let mut cmd = if env.off == 1 && ncpu >= 4 && std::path::Path::new("/usr/bin/taskset").exists() {
         let mut c = Proc::new("/usr/bin/taskset");
-        c.args(["-c", ENV_CPUS[env.off]]).arg(&exe);
+        c.args(["-c", "0-2"]).arg(&exe);
         c
     } else {
-        Proc::new(&exe) // no affinity dimension without taskset
+        Proc::new(&exe)
     };
     let out = cmd
         .args(args)
